@@ -14,6 +14,9 @@ CLAIMS = {
  "C07": ("other", "valid binary documents x catalogue of spec-invalidating edits judged by the independent decoder; the real Reader must end with a permanent error; K2 on the same inputs; text part: catalogue of malformed texts judged by SpecText (c07text)", "§7 C07"),
  "C08": ("other", "documents x navigation programs (incl. refused calls) against a reference cursor over the value tree; K2 ties the reader model's r_run to the real Reader on the same programs", "§7 C08"),
  "C09": ("proof", "34 Coq theorems over the Gallina model of symboltable.go/symboltoken.go/catalog.go (slot layout, lowest-id lookup, rejection above MaxID, builder stability over all Add histories; refuted variants with witnesses for uint64 overflow and the empty symbol); model tied to the Go API by exhaustive small configurations + random large ones", "§7 C09"),
+ "C10": ("proof", "14 Coq theorems: the table ion-go builds from a symbol-table struct denotes the specification's context (C10_step_refines), lifted over every history prefix (C10_history), resolution (C10_resolve), imports by exact/latest/placeholder/error (C10_import), symbol tables never surface; refuted variants for D16/D17; K7 on histories x catalogs x text/binary with an independent Python oracle", "§7 C10"),
+ "C11": ("proof", "14 Coq theorems over the Writer-with-imports model: imported text gets the lowest import ID and keeps it, locals are exactly the remaining texts in first-use order, the table written declares the given imports, a fixed table refuses unknown text and emits nothing; K8 + own parser, spec decoder with catalog and NewReaderCat as oracles", "§7 C11"),
+ "C15": ("proof", "24 Coq theorems: day number <-> civil date inverse for all integers (era sweep + periodicity), binary write/read round trip for every well-formed timestamp, binary rejection of impossible fields, rounding to the nearest nanosecond; text round trip and literal validity by K9 + independent oracle", "§7 C15"),
  "C12": ("proof", "Coq theorems for every call sequence: no call panics (binary growing-table Writer, text Writer), a recorded error makes every later call fail unchanged, a failing call other than Finish records the error; K3/K4 with the misuse alphabet; 'final Finish nil => bytes denote the successful calls' decided by the oracle with independent decoders", "§7 C12"),
  "C13": ("proof", "Coq theorems over the Gallina model of the binary codecs (length = bytes emitted, read∘append = id, reads never wrap) for all values; model tied to the Go functions by differential execution on boundary-directed inputs", "§7 C13"),
  "C14": ("proof", "31 Coq theorems over the Gallina model of decimal.go (exact rational results of Add/Sub/Mul/Neg/Abs/Shift, Cmp/Equal/Sign vs Qcompare, Truncate closed form, text round trip, literal validity; refuted variants with witnesses); tied to the Go code by a grid + random correspondence with an independent Fraction oracle", "§7 C14"),
@@ -23,7 +26,7 @@ CLAIMS = {
  "C19": ("other", "read side: chunkings (every split point, byte-at-a-time, with EOF) give the all-at-once trace; a source failing after k bytes ends in a permanent error (K13 ties the reader model's failing-source flag); write side: Coq theorem tw_prefix for the text Writer (all sequences, all budgets), binary Writer: K3 with budgets + prefix/sticky oracle and the stickiness theorems", "§7 C19"),
  "C20": ("other", "Gallina model of process.go's loop and the event writer; 14 Coq theorems for all forests (no panic, transcode, events one per value/boundary, invalid input reported); K12: the real built binary as a subprocess on generated documents x 5 formats x file/stdin", "§7 C20"),
 }
-PENDING = {'C04','C06','C07','C16','C17'}  # being updated to the repaired tree; re-enabled when green
+PENDING = set()  # being updated to the repaired tree; re-enabled when green
 for k in PENDING:
     CLAIMS.pop(k, None)
 import sys, importlib
